@@ -1317,6 +1317,9 @@ func compileExpr(context *funcContext, reg int, expr ast.Expr, ec *expcontext) i
 		childcontext := newFuncContext(context.Proto.SourceName, context)
 		compileFunctionExpr(childcontext, ex, ec)
 		protono := len(context.Proto.FunctionPrototypes)
+		if protono > opMaxArgBx {
+			raiseCompileError(context, sline(ex), "too many nested functions")
+		}
 		context.Proto.FunctionPrototypes = append(context.Proto.FunctionPrototypes, childcontext.Proto)
 		code.AddABx(OP_CLOSURE, sreg, protono, sline(ex))
 		for _, upvalue := range childcontext.Upvalues.List() {
